@@ -87,8 +87,10 @@ prop("C12",
      rule="every string of length <= N over {a,b,space,comma,dquote,squote,backslash,tab} is split with three delimiter sets, tokenised by the tok class (twice), and run through "
           "num_words/get_word/get_pword for every index 0..num_words+2, each compared with the reference grammar; plus all join/split round trips of <= 4 plain tokens; "
           "non-trivial = inputs with a quote, a backslash or more than one token (counted per delimiter set)",
-     bounds={"quick": "N=6 (299593 strings)", "thorough": "N=8 (19.2 M strings)"},
-     runs=[dict(name="h_tokens", sources=["harness/h_tokens.c"], profile="asan", args={"quick": ["--N=6"], "thorough": ["--N=8"]})],
+     bounds={"quick": "N=6 (299593 strings); again with the second letter replaced by 0xA0 and by 0x89", "thorough": "N=8 (19.2 M strings); with 0xA0 / 0x89 as the second letter at N=7"},
+     runs=[dict(name="h_tokens", sources=["harness/h_tokens.c"], profile="asan", args={"quick": ["--N=6"], "thorough": ["--N=8"]}),
+           dict(name="h_tokens_hbA0", binary="h_tokens", sources=["harness/h_tokens.c"], profile="asan", args={"quick": ["--N=6", "--hb=0xA0"], "thorough": ["--N=7", "--hb=0xA0"]}),
+           dict(name="h_tokens_hb89", binary="h_tokens", sources=["harness/h_tokens.c"], profile="asan", args={"quick": ["--N=6", "--hb=0x89"], "thorough": ["--N=7", "--hb=0x89"]})],
      deadline={"quick": 200, "thorough": 3000})
 
 
@@ -268,7 +270,7 @@ for _pid in ("C01", "C02", "C03", "C04", "C05", "C06", "C07", "C08", "C09", "C10
     _P = PROPS[_pid]
     _extra = []
     for _r in _P["runs"]:
-        if _r["name"].endswith("_leak") or _r["name"].endswith("_la") or _r.get("profile") not in ("asan",):
+        if _r["name"].endswith("_leak") or _r["name"].endswith("_la") or "_hb" in _r["name"] or _r.get("profile") not in ("asan",):
             continue
         _d = dict(_r)
         _d["name"] = _r["name"] + "_dl"
